@@ -84,7 +84,7 @@ func c14Universe() [3]uint8 {
 // H_C14_derivedset_hist: a DerivedSet equals the union of its current sources, SubtractReactive the source
 // minus the others, through histories of Add/Delete/Replace on the sources and unsubscribing a source.
 //
-//verif:h prop=C14 p.ops=2/3 cover=union,subtract,replace,readd,unsubscribe runs=5000000 timeout=250/2400
+//verif:h prop=C14 p.ops=3/4 cover=union,subtract,replace,readd,unsubscribe runs=5000000 timeout=250/2400
 func H_C14_derivedset_hist() {
 	u := c14Universe()
 	s1, s2 := NewSet[uint8](), NewSet[uint8]()
@@ -133,7 +133,16 @@ func H_C14_derivedset_hist() {
 //verif:h prop=C14 p.writes=3/4 cover=count runs=5000000 timeout=250/2400
 func H_C14_counter_hist() {
 	in := [2]Variable[uint8]{NewVariable[uint8](), NewVariable[uint8]()}
-	c := NewCounter[uint8](func(v uint8) bool { return v&1 == 1 })
+	// two conditions: one that is false for the zero value and one that is true for it
+	zeroTrue := verifrt.Choose("conditionTrueForZero", 2) == 1
+	cond := func(v uint8) bool {
+		if zeroTrue {
+			return v < 128
+		}
+
+		return v&1 == 1
+	}
+	c := NewCounter[uint8](cond)
 	monitored := [2]bool{true, verifrt.Choose("second", 2) == 1}
 	var stops [2]func()
 	for i := range in {
@@ -148,7 +157,7 @@ func H_C14_counter_hist() {
 	for w := 0; w <= n; w++ {
 		want := 0
 		for i := range in {
-			if monitored[i] && in[i].Get()&1 == 1 {
+			if monitored[i] && cond(in[i].Get()) {
 				want++
 			}
 		}
